@@ -5,7 +5,7 @@ From Coq Require Import Lia.
 
 (* ---------- the generated tables say what the documentation says ---------- *)
 Lemma base_args_spec : forall legacy o, base_args legacy o = spec_base o.
-Proof. intros [|] [[| |] key ctx attrs data opt]; reflexivity. Qed.
+Proof. intros [|] [[| |] key ep ctx attrs data opt]; reflexivity. Qed.
 
 Lemma ctx_key_action_spec : forall legacy, ctx_key_action legacy = s_context.
 Proof. intros [|]; reflexivity. Qed.
@@ -126,7 +126,7 @@ Lemma inv_step_run S st r a st' : inv S st -> step_run S st r a = Some st' -> in
 Proof.
   intros H E. unfold step_run in E.
   destruct (nth_error (st_runs st) r) as [rn|]; [|discriminate].
-  destruct a as [kw c|key given data c|c|c|].
+  destruct a as [kw c|key given data c ep|c|c|].
   - destruct (negb (r_begun rn) && kw_eqb kw (r_kwargs rn) && ctxv_eqb c (r_ctx rn)); inversion E; subst st'.
     intros T. rewrite started_set_begun. exact (H T).
   - match type of E with (if ?b then _ else _) = _ => destruct b end; inversion E; subst st'.
@@ -231,7 +231,7 @@ Theorem run_step_keeps_consume_enabled : forall S st r a st' T,
 Proof.
   intros S st r a st' T E HE. cbn [step] in E. unfold step_run in E.
   destruct (nth_error (st_runs st) r) as [rn|]; [|discriminate].
-  destruct a as [kw c|key given data c|c|c|].
+  destruct a as [kw c|key given data c ep|c|c|].
   - destruct (negb (r_begun rn) && kw_eqb kw (r_kwargs rn) && ctxv_eqb c (r_ctx rn)); inversion E; subst st'. exact HE.
   - match type of E with (if ?b then _ else _) = _ => destruct b end; inversion E; subst st'.
     unfold consume_enabled in *. cbn [bus emit st_q].
@@ -310,7 +310,7 @@ Proof.
     destruct (sy_legacy S); [destruct (passes tr (m_args m))|]; inversion E; subst st'; try apply Happ.
     exact H.
   - unfold step_run in E. destruct (nth_error (st_runs st) r) as [rn|] eqn:ER; [|discriminate].
-    destruct a as [kw c|key given data c|c|c|].
+    destruct a as [kw c|key given data c ep|c|c|].
     + destruct (negb (r_begun rn) && kw_eqb kw (r_kwargs rn) && ctxv_eqb c (r_ctx rn)); inversion E; subst st'.
       apply acts_inv_runs_ext; [|exact H]. intros i rn0 Ei.
       destruct (nth_error_set_begun _ r _ _ Ei) as (rn' & E1 & E2 & _). exists rn'. split; assumption.
@@ -364,7 +364,7 @@ Proof.
     destruct (sy_legacy S); [destruct (passes tr (m_args m))|]; inversion E; subst st'; try apply Happ.
     exact H.
   - unfold step_run in E. destruct (nth_error (st_runs st) r) as [rn|]; [|discriminate].
-    destruct a as [kw c|key given data c|c|c|].
+    destruct a as [kw c|key given data c ep|c|c|].
     + destruct (negb (r_begun rn) && kw_eqb kw (r_kwargs rn) && ctxv_eqb c (r_ctx rn)); inversion E; subst st'.
       unfold runs_wf. cbn [st_runs]. apply set_begun_Forall; [|exact H]. intros x Hx. exact Hx.
     + match type of E with (if ?b then _ else _) = _ => destruct b end; inversion E; subst st'. exact H.
@@ -462,18 +462,18 @@ Qed.
 (* an event.fire step of any run puts exactly the given parameters (minus a Context-typed `context`) on the bus, as
    data of an event that is itself handed to every subscribed trigger, under the explicit context if one was given
    and under the run's context otherwise *)
-Theorem fire_exact : forall S st r key given data c st',
+Theorem fire_exact : forall S st r key given data c ep st',
   NoDup (map fst given) ->
-  step S st (LRun r (AFire key given data c)) = Some st' ->
+  step S st (LRun r (AFire key given data c ep)) = Some st' ->
   kw_eqb data (spec_fire_data given) = true /\
-  st_occs st' = st_occs st ++ [ {| o_kind := KEvent; o_key := key; o_ctx := Some (c_id c); o_attrs := [];
+  st_occs st' = st_occs st ++ [ {| o_kind := KEvent; o_key := key; o_epoch := ep; o_ctx := Some (c_id c); o_attrs := [];
                                   o_data := spec_fire_data given; o_opt := None |} ] /\
   (match kw_get s_context given with
    | Some (VCtx x) => c_id c = x
    | _ => exists rn, nth_error (st_runs st) r = Some rn /\ c_id c = c_id (r_ctx rn) /\ c_parent c = c_parent (r_ctx rn)
    end).
 Proof.
-  intros S st r key given data c st' ND E. cbn [step] in E. unfold step_run in E.
+  intros S st r key given data c ep st' ND E. cbn [step] in E. unfold step_run in E.
   destruct (nth_error (st_runs st) r) as [rn|] eqn:ER; [|discriminate].
   match type of E with (if ?b then _ else _) = _ => destruct b eqn:EB end; inversion E; subst st'; clear E.
   apply andb_true_iff in EB. destruct EB as [EB Ec]. apply andb_true_iff in EB. destruct EB as [_ Ed].
@@ -490,9 +490,9 @@ Qed.
 
 (* ---------- known findings: the property is false of the faithful model ---------- *)
 Definition wh_occ (key : N) : occ :=
-  {| o_kind := KWebhook; o_key := key; o_ctx := None; o_attrs := [(s_payload, VOther 50 true)]; o_data := []; o_opt := None |}.
+  {| o_kind := KWebhook; o_key := key; o_epoch := 0; o_ctx := None; o_attrs := [(s_payload, VOther 50 true)]; o_data := []; o_opt := None |}.
 Definition wh_trig (f key : N) : trigger :=
-  {| t_func := f; t_kind := KWebhook; t_key := key; t_filter := None; t_kwargs := [] |}.
+  {| t_func := f; t_dm := f; t_epochs := [0%N]; t_kind := KWebhook; t_key := key; t_filter := None; t_kwargs := [] |}.
 
 (* D80: two functions share a webhook id (new subsystem): the second never runs although the request matches it
    (stated on the final state of a concrete schedule; states contain functions, so no equation on states) *)
@@ -505,15 +505,15 @@ Theorem refuted_D80 :
     | None => False
     end.
 Proof.
-  exists [wh_trig 100 40; wh_trig 101 40], [0%nat; 1%nat], [LBus (wh_occ 40); LConsume 0 7], 1%nat, (wh_trig 101 40).
+  exists [wh_trig 100 40; wh_trig 101 40], [(true, 0%nat); (true, 1%nat)], [LBus (wh_occ 40); LConsume 0 7], 1%nat, (wh_trig 101 40).
   cbv zeta. split; [reflexivity|]. vm_compute. split; [reflexivity|discriminate].
 Qed.
 
 (* D81: an event whose data has a key "context": the run's HA context has no parent although the event has a context *)
 Definition ev_occ_shadow : occ :=
-  {| o_kind := KEvent; o_key := 41; o_ctx := Some 9%N; o_attrs := []; o_data := [(s_context, VStr 42)]; o_opt := None |}.
+  {| o_kind := KEvent; o_key := 41; o_epoch := 0; o_ctx := Some 9%N; o_attrs := []; o_data := [(s_context, VStr 42)]; o_opt := None |}.
 Definition ev_trig (f key : N) : trigger :=
-  {| t_func := f; t_kind := KEvent; t_key := key; t_filter := None; t_kwargs := [] |}.
+  {| t_func := f; t_dm := f; t_epochs := [0%N]; t_kind := KEvent; t_key := key; t_filter := None; t_kwargs := [] |}.
 
 Theorem refuted_D81 :
   exists trigs order ls T tr,
@@ -546,10 +546,10 @@ Qed.
 
 (* the hypotheses of the theorems above are inhabited by non-trivial instances *)
 Definition ex_trigs : list trigger :=
-  [ {| t_func := 100; t_kind := KEvent; t_key := 41; t_filter := Some (FCmp CmpEq 43 (VInt 1)); t_kwargs := [(44%N, VInt 5)] |};
-    {| t_func := 100; t_kind := KEvent; t_key := 41; t_filter := None; t_kwargs := [] |} ].
+  [ {| t_func := 100; t_dm := 100; t_epochs := [0%N]; t_kind := KEvent; t_key := 41; t_filter := Some (FCmp CmpEq 43 (VInt 1)); t_kwargs := [(44%N, VInt 5)] |};
+    {| t_func := 100; t_dm := 100; t_epochs := [0%N]; t_kind := KEvent; t_key := 41; t_filter := None; t_kwargs := [] |} ].
 Definition ex_occ (c : N) (x : Z) : occ :=
-  {| o_kind := KEvent; o_key := 41; o_ctx := Some c; o_attrs := []; o_data := [(43%N, VInt x)]; o_opt := None |}.
+  {| o_kind := KEvent; o_key := 41; o_epoch := 0; o_ctx := Some c; o_attrs := []; o_data := [(43%N, VInt x)]; o_opt := None |}.
 
 Example fifo_example_legacy :
   match run_lts (mk_sys all_off true ex_trigs [])
